@@ -13,7 +13,7 @@ import numpy as np
 import pandas as pd
 from hypothesis import strategies as st
 
-from vf.core import Reject, Sub, count, ensure, impl, short
+from vf.core import Reject, Sub, count, ensure, impl, short, time_limit
 
 PROPERTY = "C45"
 PRELOAD = ["dask.dataframe"]
@@ -79,7 +79,7 @@ def check_locations(spec):
         ref = list(seq)
     n = len(ref)
     sig = dict(op="sorted_division_locations", mode=spec["mode"])
-    with impl("sorted_division_locations", **sig):
+    with impl("sorted_division_locations", **sig), time_limit(5, "sorted_division_locations", **sig):
         divisions, locations = sorted_division_locations(seq, **{spec["mode"]: spec["n"]})
     divisions, locations = list(divisions), [int(x) for x in locations]
     ctx = f"seq={short(ref, 120)} {spec['mode']}={spec['n']} -> divisions={short(divisions, 120)} locations={locations}"
